@@ -3,6 +3,7 @@ package monitor
 import (
 	"fmt"
 	"math/big"
+	"strings"
 
 	sdk "github.com/cosmos/cosmos-sdk/types"
 
@@ -141,6 +142,7 @@ func (c *Checker) checkC07(msg sdk.Msg, ok bool) {
 	poolExact := map[string]*big.Rat{}
 	poolN := map[string]int64{}
 	buyerMax := map[string]*big.Rat{}
+	over34 := false // some exact intermediate value needs more than 34 significant digits
 
 	for i, o := range m.Orders {
 		so := v.Orders[o.SellOrderId]
@@ -220,7 +222,12 @@ func (c *Checker) checkC07(msg sdk.Msg, ok bool) {
 		poolExact[d].Add(poolExact[d], add(bf, sf))
 		poolN[d]++
 		buyerMax[d].Add(buyerMax[d], add(subt, bf))
-		if IntDigits(floorRat(subt)) > 34 || ValueDecimals(subt) < 0 || IntDigits(floorRat(subt))+maxInt(ValueDecimals(subt), 0) > 34 {
+		for _, x := range []*big.Rat{subt, bf, sf, add(subt, bf), sub(subt, sf)} {
+			if sigDigits(x) > 34 {
+				over34 = true
+			}
+		}
+		if sigDigits(subt) > 34 {
 			c.Counters["c07_subtotal_over_34_digits"]++
 		}
 		// max fee
@@ -286,6 +293,10 @@ func (c *Checker) checkC07(msg sdk.Msg, ok bool) {
 	}
 
 	// coins
+	sfx := ""
+	if over34 {
+		sfx = ":beyond-34-digits"
+	}
 	touched := map[string]map[string]bool{}
 	mark := func(a, d string) {
 		if touched[a] == nil {
@@ -305,7 +316,7 @@ func (c *Checker) checkC07(msg sdk.Msg, ok bool) {
 			sellersCredit.Add(sellersCredit, delta)
 			tol := big.NewRat(sellerN[s][d], 1)
 			if diff := new(big.Rat).Abs(sub(ratInt(delta), ex)); diff.Cmp(tol) >= 0 {
-				c.report("C07", "seller-credit-off", fmt.Sprintf("seller %s credited %s %s, exact quantity x ask - seller fee = %s (%d order(s))", s, delta, d, ratStr(ex), sellerN[s][d]), nil)
+				c.report("C07", "seller-credit-off"+sfx, fmt.Sprintf("seller %s credited %s %s, exact quantity x ask - seller fee = %s (%d order(s))", s, delta, d, ratStr(ex), sellerN[s][d]), nil)
 			}
 		}
 		mark(KeyFeePool, d)
@@ -323,14 +334,14 @@ func (c *Checker) checkC07(msg sdk.Msg, ok bool) {
 		}
 		tol := big.NewRat(poolN[d], 1)
 		if diff := new(big.Rat).Abs(sub(ratInt(feeTaken), poolExact[d])); diff.Cmp(tol) >= 0 {
-			c.report("C07", "pool-credit-off", fmt.Sprintf("fees collected %s %s, exact buyer fee + seller fee = %s (%d order(s))", feeTaken, d, ratStr(poolExact[d]), poolN[d]), nil)
+			c.report("C07", "pool-credit-off"+sfx, fmt.Sprintf("fees collected %s %s, exact buyer fee + seller fee = %s (%d order(s))", feeTaken, d, ratStr(poolExact[d]), poolN[d]), nil)
 		}
 		debit := new(big.Int).Sub(v.BankOf(buyer, d), c.post.BankOf(buyer, d))
 		if debit.Cmp(new(big.Int).Add(sellersCredit, feeTaken)) != 0 {
-			c.report("C07", "buyer-debit!=credits", fmt.Sprintf("buyer debited %s %s but sellers received %s and fees were %s", debit, d, sellersCredit, feeTaken), nil)
+			c.report("C07", "buyer-debit!=credits"+sfx, fmt.Sprintf("buyer debited %s %s but sellers received %s and fees were %s", debit, d, sellersCredit, feeTaken), nil)
 		}
 		if ratInt(debit).Cmp(buyerMax[d]) > 0 {
-			c.report("C07", "buyer-overcharged", fmt.Sprintf("buyer debited %s %s, exact total quantity x ask x (1 + buyer fee) = %s", debit, d, ratStr(buyerMax[d])), nil)
+			c.report("C07", "buyer-overcharged"+sfx, fmt.Sprintf("buyer debited %s %s, exact total quantity x ask x (1 + buyer fee) = %s", debit, d, ratStr(buyerMax[d])), nil)
 		}
 	}
 	for _, a := range c.allAccounts() {
@@ -343,6 +354,22 @@ func (c *Checker) checkC07(msg sdk.Msg, ok bool) {
 			}
 		}
 	}
+}
+
+// sigDigits returns the number of significant decimal digits needed to write r exactly
+// (integer digits + decimals; 99 if r has no finite decimal expansion).
+func sigDigits(r *big.Rat) int {
+	d := ValueDecimals(r)
+	if d < 0 {
+		return 99
+	}
+	n := new(big.Int).Mul(r.Num(), pow10(d))
+	n.Quo(n, r.Denom())
+	s := strings.TrimRight(new(big.Int).Abs(n).String(), "0")
+	if s == "" {
+		return 1
+	}
+	return len(s)
 }
 
 func maxInt(a, b int) int {
